@@ -5,7 +5,7 @@
 (* Start(key, iv); every zuc.req(n) must return exactly the next n words of *)
 (* the specification's stream and advances the state -- whatever the split. *)
 (***************************************************************************)
-EXTENDS EEA3, Json, IOUtils
+EXTENDS EEA3, ZUCJump, Json, IOUtils
 Events == ndJsonDeserialize(IOEnv.TRACE)
 N == Len(Events)
 VARIABLES tpos, tst, tlast
@@ -19,6 +19,13 @@ ReqClass(e) == IF e.n = 0 THEN "zero-length" ELSE IF tst.produced = 0 THEN "firs
 Req2(e, r) == /\ tst' = [zs |-> r[2], produced |-> tst.produced + e.n]
               /\ tlast' = Verdict(e, e.outcome = "ok" /\ e.out = r[1], ReqClass(e), IF e.outcome # "ok" THEN e.outcome ELSE "wrong-keystream")
 Req1(e) == Req2(e, Request(tst.zs, e.n))
+\* a SKIP: the driver let the library produce e.n words that are not judged (2^27 words cannot be recomputed here) and logged the generator's
+\* state through the gm_rs_verif accessor.  The LFSR part of that state IS checked -- in work mode the register is a linear recurrence over
+\* GF(2^31 - 1), independent of F, so the specification jumps it by x^n modulo the feedback polynomial (ZUCJump.tla); the two memory words of F
+\* are taken from the log (the keystream words requested next are judged from the state so obtained).
+StateOK(e) == Len(e.s) = 16 /\ (\A j \in 1..16 : e.s[j] \in 1..2147483647) /\ IsWord(e.r1) /\ IsWord(e.r2)
+Skip1(e) == /\ tst' = IF StateOK(e) THEN [zs |-> [s |-> e.s, r1 |-> e.r1, r2 |-> e.r2], produced |-> tst.produced + 1] ELSE tst
+            /\ tlast' = Verdict(e, e.outcome = "ok" /\ StateOK(e) /\ e.s = JumpLFSR(tst.zs.s, e.n), "skip", IF e.outcome # "ok" THEN e.outcome ELSE "wrong-lfsr-state")
 \* (a call whose derived IV puts an addition of the first initialisation round on the reduction boundary is its own class)
 Bnd(key, iv) == IF Len(key) = 16 /\ FirstRoundBoundary(key, iv) THEN ".add31-boundary" ELSE ""
 LenClass(len) == IF len = 0 THEN "len0" ELSE IF len % 32 = 0 THEN "len%32=0" ELSE IF len % 32 = 1 THEN "len%32=1" ELSE IF len % 32 = 31 THEN "len%32=31" ELSE "len-other"
@@ -30,6 +37,7 @@ Eia1(e) == /\ tst' = tst
                                IF e.outcome # "ok" THEN e.outcome ELSE "wrong-mac")
 Step(e) == IF e.op = "zuc.new" THEN New1(e)
            ELSE IF e.op = "zuc.req" THEN Req1(e)
+           ELSE IF e.op = "zuc.skip" THEN Skip1(e)
            ELSE IF e.op = "eea.encrypt" THEN Eea1(e)
            ELSE IF e.op = "eia.mac" THEN Eia1(e)
            ELSE tst' = tst /\ tlast' = <<e.id, "dev", e.prop, "unknown-op", e.op>>
